@@ -191,6 +191,11 @@ func (o *Origins) onlyStore(a *ssa.Alloc) ssa.Value {
 						}
 					}
 				}
+			case *ssa.MakeClosure:
+				// captured by a closure: harmless if no closure ever stores to the captured variable
+				if closureStores(r, a) {
+					escaped = true
+				}
 			default:
 				escaped = true
 			}
@@ -396,4 +401,41 @@ func (o *Origins) baseOf(v ssa.Value) *Term {
 		}
 	}
 	return o.Of(v)
+}
+
+// closureStores reports whether the closure created by mc (or a closure nested in it) stores to the
+// variable it captures as cell (or lets it escape further than loads / field loads).
+func closureStores(mc *ssa.MakeClosure, cell ssa.Value) bool {
+	fn := mc.Fn.(*ssa.Function)
+	for i, b := range mc.Bindings {
+		if b != cell || i >= len(fn.FreeVars) {
+			continue
+		}
+		fv := fn.FreeVars[i]
+		if fv.Referrers() == nil {
+			continue
+		}
+		for _, r := range *fv.Referrers() {
+			switch x := r.(type) {
+			case *ssa.UnOp, *ssa.DebugRef:
+			case *ssa.FieldAddr:
+				if x.Referrers() != nil {
+					for _, rr := range *x.Referrers() {
+						switch rr.(type) {
+						case *ssa.UnOp, *ssa.FieldAddr, *ssa.DebugRef:
+						default:
+							return true
+						}
+					}
+				}
+			case *ssa.MakeClosure:
+				if closureStores(x, fv) {
+					return true
+				}
+			default:
+				return true
+			}
+		}
+	}
+	return false
 }
